@@ -286,3 +286,63 @@ def c12(ctx):
     ctx.floor("deleg", 12)
     ctx.floor("window", 20)
     ctx.floor("value-fwd", 12)
+
+
+# ---------------------------------------------------------------------------
+from . import rules_hll as RL
+
+
+@prop("C02", "other",
+      "The register file is shown to be a join-semilattice CRDT, structurally: every store into the registers is "
+      "R[i] <- max(R[i], e) (join), in _merge with e = other[i] over range(m) (cover); in _add the index and the candidate rank "
+      "have backward slices containing only (key, seed, p, m), fasthash64 and the leading-zero helper (indep); for every accepted "
+      "precision the index is the low p bits of fasthash64(whole key, seed), in bounds, and the rank is nlz(hash >> p) - p + 1 without "
+      "unsigned wrap (bits, hll-range); the leading-zero helper is exact on all 2^64 inputs by abstract interpretation over the 65 "
+      "msb classes (nlz); multiplicities do not reach the kernel (ignore-mult); merge compares p and seed first (guard-set); the "
+      "n-gram kernel adds exactly the windows (window); p is validated to [7,16] and m = 1 << p (ctor-range, bits); seed is stored "
+      "as a full uint64 (attr-type). Hence state = pointwise max over the key set. Not decided: query()'s numeric value (C17) and the hash (C11).")
+def c02(ctx):
+    F = facts_of(ctx)
+    hll = [("hyperloglog", "HyperLogLog")]
+    RA.rule_bind(ctx, hll)
+    RA.rule_attr_type(ctx, hll)
+    RL.rule_p_range(ctx)
+    RL.rule_nlz(ctx)
+    RL.rule_join(ctx)
+    RL.rule_indep(ctx)
+    RL.rule_bits(ctx)
+    RL.rule_hll_ignore_mult(ctx)
+    ks = RL.hll_kernels(F)
+    RA.rule_cover(ctx, [ks["merge"]])
+    RA.rule_other_ro(ctx, [ks["merge"]])
+    RT.rule_mergeguard(ctx, hll)
+    RT.rule_window(ctx)
+    ctx.floor("nlz", 66)
+    ctx.floor("join", 3)
+    ctx.floor("indep", 1)
+    ctx.floor("bits", 40)
+    ctx.floor("hll-range", 20)
+    ctx.floor("window", 4)
+
+
+@prop("C17", "other",
+      "Decision structure, formulas, constants and tables of the HyperLogLog++ estimator decided structurally: _query's return paths "
+      "are exactly the four regimes (zero registers & LC <= threshold -> LC; zero registers & LC > threshold -> EST - interp(EST; raw, bias); "
+      "no zero register & EST <= 5m -> EST - bias; else EST), with strictness of each comparison checked on the path conditions; "
+      "LC is m*ln(m/V), EST is alpha*m^2/sum(2^-r) over all registers, V = m - count_nonzero; alpha = 0.7213/(1+1.079/m); threshold, "
+      "bias and raw-estimate are row p-7 of their tables with 7 <= p <= 16 enforced; the shipped tables have 10 rows of equal length, "
+      "strictly increasing raw estimates, begin where the thresholds end and end at 5m. Not decided: floating-point accuracy.")
+def c17(ctx):
+    F = facts_of(ctx)
+    hll = [("hyperloglog", "HyperLogLog")]
+    RA.rule_bind(ctx, hll)
+    RL.rule_p_range(ctx)
+    RL.rule_qtree(ctx)
+    RL.rule_alpha(ctx)
+    RL.rule_tabidx(ctx)
+    RL.rule_tables(ctx)
+    ctx.floor("qtree", 6)
+    ctx.floor("forms", 7)
+    ctx.floor("alpha", 1)
+    ctx.floor("tabidx", 3)
+    ctx.floor("tables", 40)
